@@ -86,7 +86,7 @@ def do_classify(handle, txn, rows, live=False):
         return {'exception': type(e).__name__ + ': ' + str(e)[:120]}
 
 
-def do_parse_csv(handle, txn, rows, tmpdir, live=False):
+def do_parse_csv(handle, txn, rows, tmpdir, live=False, earlier=()):
     from tally.format_parser import parse_format_string
     from tally.parsers import parse_generic_csv
     rules, transforms = handle
@@ -94,8 +94,9 @@ def do_parse_csv(handle, txn, rows, tmpdir, live=False):
     with open(p, 'w', newline='', encoding='utf-8') as f:
         w = csv.writer(f)
         w.writerow(['d', 'desc', 'memo', 'code', 'amt'])
-        w.writerow([txn['date'].isoformat()[:10], txn['description'], (txn.get('field') or {}).get('memo', ''), (txn.get('field') or {}).get('code', ''),
-                    repr(float(txn['amount']))])
+        for x in list(earlier) + [txn]:          # `earlier`: rows of the same statement file that are read before the one in question
+            w.writerow([x['date'].isoformat()[:10], x['description'], (x.get('field') or {}).get('memo', ''), (x.get('field') or {}).get('code', ''),
+                        repr(float(x['amount']))])
     spec = parse_format_string('{date:%Y-%m-%d},{description},{memo},{code},{amount}')
     try:
         out = parse_generic_csv(p, spec, rules, source_name=txn.get('source') or 'CSV', transforms=transforms,
@@ -385,7 +386,7 @@ def run_sequence(rec, pool, pr, rnd, nops, tmp, fresh_rate):
         rec.count('history_ops')
         if step:
             tree_integrity(rec, ep, rnd, 12, 'after step %d' % (step - 1), {'kind': 'history', 'step': step})
-        op = rnd.choice(['load', 'load', 'classify', 'classify', 'classify', 'parse', 'eval', 'eval', 'engine', 'view', 'reload'])
+        op = rnd.choice(['load', 'load', 'classify', 'classify', 'classify', 'parse', 'parse', 'eval', 'eval', 'engine', 'view', 'reload'])
         if flood_at == step:
             # a long-lived process has seen many distinct expressions and regular expressions (a big migrated rule file, many files):
             # whatever bounded or keyed cache sits behind them, later answers must not change
@@ -433,7 +434,23 @@ def run_sequence(rec, pool, pr, rnd, nops, tmp, fresh_rate):
             rules_snap, rows_live = typed_snapshot(handle[0]), copy.deepcopy(rows_here)
             rows_snap = typed_snapshot(rows_live)
             cached_before = len(ep._expression_cache)
-            got = do_classify(handle, txn, rows_live, live=True) if op == 'classify' else do_parse_csv(handle, txn, rows_live, tmp, live=True)      # the very objects that are snapshotted
+            earlier = []
+            if op == 'parse' and rnd.random() < .6:
+                # the row is not the first of its statement: rows read before it in the same file (look-alikes that differ only in a custom column, and others)
+                from vt import world as _w
+                for _ in range(rnd.randint(1, 3)):
+                    if rnd.random() < .7:
+                        u = copy.deepcopy(txn)
+                        u['field'] = dict(u.get('field') or {}, **rnd.choice([{'memo': rnd.choice(_w.MEMOS).strip()}, {'code': rnd.choice(_w.CODES).strip()},
+                                                                                  {'memo': rnd.choice(_w.MEMOS).strip(), 'code': rnd.choice(_w.CODES).strip()}]))
+                    else:
+                        u = rnd.choice(pool['txns'])
+                    if u.get('date') and (u.get('description') or '').strip() and u.get('amount') and '\n' not in u['description']:
+                        earlier.append(u)
+                rec.count('rows_parsed_after_earlier_rows_of_the_same_file', 1 if earlier else 0)
+            got = do_classify(handle, txn, rows_live, live=True) if op == 'classify' else do_parse_csv(handle, txn, rows_live, tmp, live=True, earlier=earlier)      # the very objects that are snapshotted
+            if earlier and isinstance(got, list):
+                got = got[len(earlier):] if len(got) == len(earlier) + 1 else {'rows_read': len(got), 'rows_written': len(earlier) + 1}
             rec.count('immutability_snapshots')
             if typed_snapshot(handle[0]) != rules_snap or typed_snapshot(rows_live) != rows_snap:
                 rec.violation('classify-mutates-rules-or-rows', f'{op} after load {cur}: rule tuples or supplemental rows changed', dict(case_base, txn=O.jtxn(txn)))
